@@ -216,6 +216,44 @@ func twinCorpus() []CorpusReq {
 			"methodParameters":  methodParams(m, []string{"c1", "c3"}, map[string]float64{"c1": 1, "c3": 2}, false)}
 		out = append(out, CorpusReq{Name: "twin/" + m + "/shorter", Req: short, Valid: true, Always: true})
 	}
+	// the same activation seed with lists of one, two and three entries whose probabilities are fractional: whatever is
+	// remembered per seed from a shorter list shows when a longer one follows (and the other way round)
+	ws := rootRequest("weightedSum", true, false)
+	var bs []M
+	for n := 1; n <= 3; n++ {
+		b := bias("fatigue", M{"function": "const", "params": M{"value": 0.125}, "randomSeed": int64(n)})
+		b["applyProbability"] = 0.5
+		bs = append(bs, b)
+		r := withBiases(ws, append([]M{}, bs...))
+		r["biasApplyRandomSeed"] = 77
+		out = append(out, CorpusReq{Name: fmt.Sprintf("activation/seed77/len%d", n), Req: r, Valid: true, Always: true})
+	}
+	// seeded random search order where the order decides the ranking (everybody is accepted at the first level / every
+	// comparison is a draw): the same seed twice must give the same order twice
+	five := L{}
+	for i, id := range []string{"a", "b", "c", "d", "e"} {
+		five = append(five, alt(id, map[string]float64{"c1": 1 + float64(i%2), "c2": 2, "c3": 3 - float64(i%2)}))
+	}
+	for _, m := range []string{"satisfactionHeuristic", "majorityHeuristic", "aspectEliminationHeuristic"} {
+		r := rootRequest(m, false, false)
+		r["knownAlternatives"] = five
+		r["choseToMake"] = L{"a", "b", "c", "d", "e"}
+		r = withMP(r, M{"randomAlternativesOrdering": true, "randomSeed": 11})
+		if m == "satisfactionHeuristic" {
+			r = withMP(r, M{"function": "thresholds", "params": M{"thresholds": L{M{"c1": 0.5, "c2": 9.0, "c3": 0.5}}}})
+		}
+		if m == "majorityHeuristic" {
+			r = withMP(r, M{"weights": M{"c1": 1.0, "c2": 1.0, "c3": 1.0}, "drawResolution": "current"})
+		}
+		out = append(out, CorpusReq{Name: "random-order/" + m, Req: r, Valid: true, Always: true})
+	}
+	// one bias kind applied twice in one request with the same seed (second generated id, second stream)
+	core0 := biasAlphabet(0)
+	for _, m := range []string{"weightedSum", "satisfactionHeuristic"} {
+		root := rootRequest(m, true, false)
+		out = append(out, CorpusReq{Name: "twice/" + m + "/concealment>concealment", Req: withBiases(root, []M{core0[4], core0[4]}), Valid: true, Always: true})
+		out = append(out, CorpusReq{Name: "twice/" + m + "/mixing>mixing", Req: withBiases(root, []M{core0[6], core0[6]}), Valid: true, Always: true})
+	}
 	return out
 }
 
